@@ -148,8 +148,6 @@ def in_finding_class(s):
         names = IDENT.findall(lhs)
         if len(names) >= 2:
             return True
-        if names and re.search(r'(?<![A-Za-z_0-9.])' + re.escape(names[0]) + r'\s*\(', t):
-            return True
     return False
 
 
@@ -281,11 +279,6 @@ def _classify_count(s, texts, emitted, unclosed):
     for p in per:
         if p and len(p[0]) >= 2:
             return 'several-lhs-names'
-    for p in per:
-        if p and len(p[0]) == 0:
-            lhs = p[2].split('=', 1)[0]
-            if any(n in IDENT.findall(lhs) for n in p[1]):
-                return 'lhs-name-is-function'
     return 'dropped' if emitted < len(texts) else 'extra'
 
 
@@ -538,7 +531,7 @@ CORPUS = [
     '(\n```\n```\n)', 'a(\n```\n```\n)', '```\nfoo```\n```x', '```\n(\n```\n)', '```\nfoo\n```x', '```python\nx = 1\n```',   # NEW: ValueError from split('=')
     'Y = Y[-1] + 1\nY = Y[-1] + 1', 'Y = X\nY = X', 'Y = X\nY =  X', 'Y = X[0]\nY = X',            # duplicates merge
     'Y,Z = 1,2', 'a.b = 1', 'Y[a=b]',                                                             # several names on the left
-    'Y = Y(1)', 'a=a()', 'Y = exp + exp(X)', 'exp = exp(X)',                                      # 19
+    'Y = Y(1)', 'a=a()', 'Y = exp + exp(X)', 'Y = exp(X) + exp', 'exp = exp(X)', 'Y = {a} + a(X)', 'Y = a(X) + <a>', 'Y = f(X) + f(Z)', 'Y = a + 1\nZ = a(1)', 'Z = a(1)\nY = a + 1',   # 19: SymbolError since b45daa1
     'Y = {{a}}', 'Y = {{}}', 'Y = X [-1]', 'Y[ 1 ] = X',
     'Y = {0}', 'Y = }{', 'Y = {:}', 'Y = { 0 }', 'Y = {a}{0}', 'Y = X + {[0]} + Z', 'Y = X + {!r} + Z', 'Y = {',   # 6fcad37
     '2 = X', '{p} = X', '<e> = X', '`a` = `b`', '(2) = X', 'if[0] = X', "'a' = X",                 # 2ef3e7c
